@@ -121,7 +121,7 @@ impl LogServerClient {
 //!end
 }
 
-//!fn src/app/log.rs is_log_allowed props=C20
+//!fn src/app/log.rs is_log_allowed props=C20,C08
 pub(crate) fn is_log_allowed(
     targets: &HashSet<String>,
     commands: &HashSet<String>,
@@ -130,7 +130,7 @@ pub(crate) fn is_log_allowed(
 ) -> ⟦(r: ⟧bool⟦)⟧
 @    ensures
 @        // C20: a task is admitted iff its target and its command pass the listener's filters (an empty filter admits all)
-@        r == ((targets@ =~= Set::<Seq<char>>::empty() || targets@.contains(target@)) && (commands@ =~= Set::<Seq<char>>::empty() || commands@.contains(command@))), // [C20]
+@        r == ((targets@ =~= Set::<Seq<char>>::empty() || targets@.contains(target@)) && (commands@ =~= Set::<Seq<char>>::empty() || commands@.contains(command@))), // [C20,C08]
 {
     let target_allowed = targets.is_empty() || targets.contains(target);
     let command_allowed = commands.is_empty() || commands.contains(command);
